@@ -4,7 +4,7 @@ from vt import detsched as ds, sysx
 
 ID = 'C25'
 ENGINE = 'detsched'
-TECHNIQUE = 'runtime monitoring: sequential registry model + deterministic cooperative scheduler at opcode granularity in miros/event.py with per-thread observation logs'
+TECHNIQUE = 'runtime monitoring: sequential registry model + deterministic cooperative scheduler at opcode granularity in miros/event.py with per-thread observation logs; a few small scenarios per run are enumerated systematically (every schedule within a delay bound, vt/sysx.py)'
 RULE = ('(sequential part) random name sequences registered through append, attribute access and Event(name) (arbitrary strings incl. '
         'unicode/spaces/digits; identifiers for attribute access), checked after every operation against a dictionary model: distinct '
         'positive numbers, never changing, name_for_signal inverse, is_inner_signal true exactly for the ten built-ins, Event(name or number) '
